@@ -3,6 +3,7 @@
 from __future__ import annotations
 
 import collections
+import copy
 import itertools
 from enum import Enum
 from enum import auto
@@ -267,7 +268,9 @@ def _patch_obj(
             _obj[part] = {}  # type: ignore
         _obj = _obj[part]
 
-    _obj[parts[-1]] = value  # type: ignore
+    # Insert a copy. A later selection below this one is patched into what we
+    # insert here, and that must not be the source document.
+    _obj[parts[-1]] = copy.deepcopy(value)  # type: ignore
 
 
 def _fix_sparse_arrays(obj: Any) -> object:
